@@ -781,7 +781,7 @@ fn restart(ctx: &mut Ctx, s: &mut Session) -> Step {
                 }
             }
             Err(e) => {
-                return fail_any(ctx, &[(Prop::C06, "build.rejected-valid"), (Prop::C05, "recover.paths-differ")], features, format!("builder rejected {fen:?}: {e}"));
+                return fail_any(ctx, &[(Prop::C05, "recover.paths-differ")], features, format!("builder rejected {fen:?}: {e}"));
             }
         }
     }
@@ -795,7 +795,7 @@ fn restart(ctx: &mut Ctx, s: &mut Session) -> Step {
                 compare_replica(ctx, &s.board, &r, "builder-detours", &features, &fen)?;
             }
             Err(e) => {
-                return fail_any(ctx, &[(Prop::C06, "build.rejected-valid"), (Prop::C05, "recover.paths-differ")], features, format!("builder (with detours) rejected {fen:?}: {e}"));
+                return fail_any(ctx, &[(Prop::C05, "recover.paths-differ")], features, format!("builder (with detours) rejected {fen:?}: {e}"));
             }
         }
     }
